@@ -60,7 +60,7 @@ def generate(rng, tier, shard, nshards, mon):
                        "setting": "interior", "default": 0, "sys": True}
             idx += 1
     mon.exhaustive["interior-pairs-3state-n3"] = True
-    nrand = (3000 if tier == "quick" else 60000) // nshards
+    nrand = (8000 if tier == "quick" else 80000) // nshards
     for _ in range(nrand):
         yield _random_case(rng)
 
